@@ -16,40 +16,40 @@ HM = ["hmlist", "hmmap"]
 ALL = RECL + QUEUES + ["bqueues", "kfifo", "own"] + HM + ["vmap", "deque", "lr", "seqlock"]
 
 PROPS = {
-    "C01": {"mode": "C01", "harnesses": RECL, "quick_s": 25, "thorough_s": 900,
+    "C01": {"mode": "C01", "harnesses": RECL, "quick_s": 70, "quick_runs": 300000, "thorough_s": 900,
             "title": "no object destroyed while a guard_ptr protects it"},
-    "C02": {"mode": "C02", "harnesses": RECL, "quick_s": 25, "thorough_s": 900,
+    "C02": {"mode": "C02", "harnesses": RECL, "quick_s": 60, "quick_runs": 200000, "thorough_s": 900,
             "title": "retired objects destroyed exactly once, by their own deleter, never leaked"},
-    "C03": {"mode": "C03", "harnesses": ALL, "quick_s": 30, "thorough_s": 1200,
+    "C03": {"mode": "C03", "harnesses": ALL, "quick_s": 70, "quick_runs": 250000, "thorough_s": 1200,
             "title": "race-free and robust to weak executions"},
-    "C04": {"mode": "C04", "harnesses": QUEUES, "quick_s": 20, "thorough_s": 600,
+    "C04": {"mode": "C04", "harnesses": QUEUES, "quick_s": 60, "quick_runs": 280000, "thorough_s": 600,
             "title": "michael_scott / ramalhete / nikolaev queues are linearizable FIFO queues"},
-    "C05": {"mode": "C05", "harnesses": ["bqueues"], "quick_s": 20, "thorough_s": 600,
+    "C05": {"mode": "C05", "harnesses": ["bqueues"], "quick_s": 50, "quick_runs": 600000, "thorough_s": 600,
             "title": "vyukov_bounded / nikolaev_bounded queues are linearizable bounded FIFOs"},
-    "C06": {"mode": "C06", "harnesses": ["kfifo"], "quick_s": 20, "thorough_s": 600,
+    "C06": {"mode": "C06", "harnesses": ["kfifo"], "quick_s": 60, "quick_runs": 500000, "thorough_s": 600,
             "title": "Kirsch k-FIFO queues conserve elements with at most k-1 overtaking"},
-    "C07": {"mode": "C07", "harnesses": ["own"], "quick_s": 20, "thorough_s": 600,
+    "C07": {"mode": "C07", "harnesses": ["own"], "quick_s": 50, "quick_runs": 800000, "thorough_s": 600,
             "title": "queues own their elements: moved out or destroyed exactly once"},
-    "C08": {"mode": "C08", "harnesses": HM, "quick_s": 25, "thorough_s": 900,
+    "C08": {"mode": "C08", "harnesses": HM, "quick_s": 60, "quick_runs": 500000, "thorough_s": 900,
             "title": "Harris-Michael list set and hash map are linearizable sets/maps"},
-    "C09": {"mode": "C09", "harnesses": HM, "quick_s": 25, "thorough_s": 900,
+    "C09": {"mode": "C09", "harnesses": HM, "quick_s": 60, "quick_runs": 600000, "thorough_s": 900,
             "title": "Harris-Michael iterators stay valid and weakly consistent under updates"},
-    "C10": {"mode": "C10", "harnesses": ["vmap"], "quick_s": 25, "thorough_s": 900,
+    "C10": {"mode": "C10", "harnesses": ["vmap"], "quick_s": 70, "quick_runs": 240000, "thorough_s": 900,
             "title": "vyukov_hash_map is a linearizable map incl. lock-free reads and resizing"},
-    "C11": {"mode": "C11", "harnesses": ["vmap"], "quick_s": 25, "thorough_s": 900,
+    "C11": {"mode": "C11", "harnesses": ["vmap"], "quick_s": 70, "quick_runs": 300000, "thorough_s": 900,
             "title": "vyukov_hash_map iterators: exclusive traversal, erase(iterator), no lost locks"},
-    "C12": {"mode": "C12", "harnesses": ["deque"], "quick_s": 20, "thorough_s": 600,
+    "C12": {"mode": "C12", "harnesses": ["deque"], "quick_s": 60, "quick_runs": 800000, "thorough_s": 600,
             "title": "chase_work_stealing_deque hands out every pushed item exactly once"},
-    "C13": {"mode": "C13", "harnesses": ["lr"], "quick_s": 15, "thorough_s": 600,
+    "C13": {"mode": "C13", "harnesses": ["lr"], "quick_s": 50, "quick_runs": 800000, "thorough_s": 600,
             "title": "left_right: readers always see one consistent, fully updated instance"},
-    "C14": {"mode": "C14", "harnesses": ["seqlock"], "quick_s": 15, "thorough_s": 600,
+    "C14": {"mode": "C14", "harnesses": ["seqlock"], "quick_s": 60, "quick_runs": 800000, "thorough_s": 600,
             "title": "seqlock::load returns exactly some stored value, never torn or truncated"},
-    "C15": {"mode": "C15", "harnesses": RECL, "quick_s": 25, "thorough_s": 600,
+    "C15": {"mode": "C15", "harnesses": RECL, "quick_s": 60, "quick_runs": 200000, "thorough_s": 600,
             "title": "marked_ptr / concurrent_ptr / guard_ptr smart pointer algebra"},
-    "C16": {"mode": "C16", "harnesses": ALL, "quick_s": 30, "thorough_s": 900,
+    "C16": {"mode": "C16", "harnesses": ALL, "quick_s": 60, "quick_runs": 200000, "thorough_s": 900,
             "title": "lock-free operations finish in bounded solo steps"},
-    "C17": {"mode": "C17", "harnesses": RECL, "quick_s": 25, "thorough_s": 900,
+    "C17": {"mode": "C17", "harnesses": RECL, "quick_s": 60, "quick_runs": 80000, "thorough_s": 900,
             "title": "dynamic threads: bookkeeping recycled, exited threads never block or leak"},
-    "C18": {"mode": "C18", "harnesses": ["recl_a"], "quick_s": 25, "thorough_s": 600,
+    "C18": {"mode": "C18", "harnesses": ["recl_a"], "quick_s": 60, "quick_runs": 200000, "thorough_s": 600,
             "title": "hazard pointer / era slots: K available, exhaustion reported, reusable"},
 }
